@@ -1,0 +1,44 @@
+//go:build verif
+
+// Contracts for validateConfig (C19), checked by /verif (govc). Comment-only file.
+//
+// The postcondition lists, from the property, the set-ups that must be refused: whenever
+// validateConfig returns nil none of them is present. splitPort / splitOK are the
+// uninterpreted results of net.SplitHostPort. How flags, environment and YAML are turned
+// into a Config (urfave/cli, yaml.v3) is library behaviour and is not under contract.
+
+package config
+
+//@ extern net.SplitHostPort(hostport)
+//@   pure
+//@   ensures result1 == splitPort(hostport) && ((result2 == nil) <==> splitOK(hostport))
+
+//@ extern github.com/buchgr/bazel-remote/v2/cache/s3proxy.IsValidAuthMethod(m)
+//@   pure
+//@ extern github.com/buchgr/bazel-remote/v2/cache/azblobproxy.IsValidAuthMethod(m)
+//@   pure
+
+//@ pred b2i(b) = b ? 1 : 0
+//@ pred proxyCount(c) = b2i(c.S3CloudStorage != nil) + b2i(c.HTTPBackend != nil) + b2i(c.GoogleCloudStorage != nil) + b2i(c.AzBlobConfig != nil) + b2i(c.GRPCBackend != nil)
+//@ pred isUnix(a) = hasPrefix(a, "unix://")
+//@ pred addrOK(a) = isUnix(a) ? a[7:] != "" : splitOK(a)
+//@ pred grpcOn(c) = c.GRPCAddress != "" && c.GRPCAddress != "none"
+//@ pred authOn(c) = c.TLSCaFile != "" || c.HtpasswdFile != "" || c.LDAP != nil
+
+//@ func validateConfig(c *Config) error
+//@   serves C19 C14
+//@   requires c != nil
+//@   modifies #config.LDAPConfig.UsernameAttribute, #config.LDAPConfig.CacheTime
+//@   ensures[C19] dir: result == nil ==> (c.Dir != "" && c.MaxSize > 0)
+//@   ensures[C19] modes: result == nil ==> ((c.StorageMode == "zstd" || c.StorageMode == "uncompressed") && (c.ZstdImplementation == "go" || c.ZstdImplementation == "cgo"))
+//@   ensures[C19] oneproxy: result == nil ==> proxyCount(c) <= 1
+//@   ensures[C19] httpaddr: result == nil ==> addrOK(c.HTTPAddress)
+//@   ensures[C19] grpcaddr: (result == nil && grpcOn(c)) ==> addrOK(c.GRPCAddress)
+//@   ensures[C19] ports: (result == nil && grpcOn(c) && !isUnix(c.HTTPAddress) && !isUnix(c.GRPCAddress) && splitPort(c.HTTPAddress) != "") ==> splitPort(c.HTTPAddress) != splitPort(c.GRPCAddress)
+//@   ensures[C19] tlspair: result == nil ==> ((c.TLSCertFile != "") <==> (c.TLSKeyFile != ""))
+//@   ensures[C19] mtls: (result == nil && c.TLSCaFile != "") ==> (c.TLSCertFile != "" && c.TLSKeyFile != "")
+//@   ensures[C19] unauthreads: (result == nil && c.AllowUnauthenticatedReads) ==> authOn(c)
+//@   ensures[C19] limits: result == nil ==> (c.MaxBlobSize > 0 && c.MaxProxyBlobSize > 0)
+//@   ensures[C19] asset: (result == nil && c.ExperimentalRemoteAssetAPI) ==> c.GRPCAddress != "none"
+//@   ensures[C19] loglevels: result == nil ==> ((c.AccessLogLevel == "none" || c.AccessLogLevel == "all") && (c.LogTimezone == "UTC" || c.LogTimezone == "local" || c.LogTimezone == "none"))
+//@   loop 0 modifies mapof(duplicates)
